@@ -176,6 +176,127 @@ the rank of the node is enough on an acyclic graph). -/
 section
 variable {F E : Type} (cx : Ctx F E)
 
+/-! ### First principles (stated here, not imported from the model)
+
+The pieces of the rules below that carry real content are defined in this file from
+scratch — which kinds of node have an integer / float / string / boolean / enumeration
+value, which indexed value a selector value selects, which entry a value denotes, `i64`
+arithmetic with its range condition, and what a read / write of the device image is —
+and each comes with a characterisation in plain logical vocabulary (`Props/C03.lean`:
+`selectIndexed_spec`, `firstEntryWithValue_spec`, `i64_arith_spec`, `image_read_spec`,
+`image_patch_spec`).  That the model's own helper functions compute the same is part of
+what the refinement theorems prove. -/
+
+/-- kinds of node that have an integer value (IInteger) -/
+def intValued (n : NodeId) : Bool :=
+  match cx.graph n with
+  | some nd =>
+    match nd with
+    | .integer .. => true
+    | .intReg .. => true
+    | .maskedIntReg .. => true
+    | .intConverter .. => true
+    | .intSwissKnife .. => true
+    | _ => false
+  | none => false
+
+/-- kinds of node that have a float value (IFloat) -/
+def floatValued (n : NodeId) : Bool :=
+  match cx.graph n with
+  | some nd =>
+    match nd with
+    | .float .. => true
+    | .floatReg .. => true
+    | .converter .. => true
+    | .swissKnife .. => true
+    | _ => false
+  | none => false
+
+def enumValued (n : NodeId) : Bool :=
+  match cx.graph n with
+  | some (.enumeration ..) => true
+  | _ => false
+
+def strValued (n : NodeId) : Bool :=
+  match cx.graph n with
+  | some (.string ..) => true
+  | some (.stringReg ..) => true
+  | _ => false
+
+/-- `<pIndex>`: the indexed value selected by selector value `i` — the first
+`<ValueIndexed Index=i>` in document order, the default when there is none. -/
+def selectIndexed {α : Type} : List (Int × α) → α → Int → α
+  | [], dflt, _ => dflt
+  | (j, v) :: rest, dflt, i => if j = i then v else selectIndexed rest dflt i
+
+/-- the declared integer value of an enumeration entry node -/
+def entryValue (e : NodeId) : Option Int :=
+  match cx.graph e with
+  | some (.enumEntry _ v _ _) => some v
+  | _ => .none
+
+/-- the entry an integer value denotes: the first entry (document order) whose declared
+value is `v`; no entry if none matches (or the list names something that is not an entry) -/
+def firstEntryWithValue : List NodeId → Int → Option NodeId
+  | [], _ => .none
+  | e :: es, v =>
+    match entryValue cx e with
+    | some ev => if ev = v then some e else firstEntryWithValue es v
+    | .none => .none
+
+/-- the declared symbolic name of an enumeration entry node -/
+def entrySymbolic (e : NodeId) : Option String :=
+  match cx.graph e with
+  | some (.enumEntry _ _ _ sym) => some sym
+  | _ => .none
+
+/-- the value the entry called `name` denotes (first entry with that symbolic name) -/
+def entryValueNamed : List NodeId → String → Option Int
+  | [], _ => .none
+  | e :: es, name =>
+    match entrySymbolic cx e, entryValue cx e with
+    | some sym, some v => if sym = name then some v else entryValueNamed es name
+    | _, _ => .none
+
+/-- a length as the code's `usize` (64 bit): the residue modulo 2^64 -/
+def usizeOf (l : Int) : Nat := (l % 2 ^ 64).toNat
+
+/-- `i64` range -/
+def InI64 (x : Int) : Prop := -(2 ^ 63) ≤ x ∧ x < 2 ^ 63
+
+instance (x : Int) : Decidable (InI64 x) := by unfold InI64; infer_instance
+
+/-- An `i64` result: the exact integer when it is in range; out of range the code has no
+value with overflow checks (it panics) and the two's-complement residue without. -/
+def i64Result (p : Profile) (x : Int) : Option Int :=
+  if InI64 x then some x else if p.overflowChecks then .none else some (Int.bmod x (2 ^ 64))
+
+/-- the bytes `[k, k+n)` of an image (`none` if the range leaves the image) -/
+def imageBytes : Bytes → Nat → Nat → Option Bytes
+  | _, _, 0 => some []
+  | mem, k, n + 1 =>
+    match mem[k]? with
+    | some b => (imageBytes mem (k + 1) n).map (b :: ·)
+    | .none => .none
+
+/-- a device read of `len` bytes at `a`: the address range lies inside the image -/
+def imageRead (mem : Bytes) (a : Int) (len : Nat) : Option Bytes :=
+  if 0 ≤ a ∧ a.toNat + len ≤ mem.length then imageBytes mem a.toNat len else .none
+
+/-- an image with `data` stored from index `k` on (everything else unchanged) -/
+def imagePatch : Bytes → Nat → Bytes → Bytes
+  | [], _, _ => []
+  | m :: ms, 0, [] => m :: ms
+  | _ :: ms, 0, d :: ds => d :: imagePatch ms 0 ds
+  | m :: ms, k + 1, ds => m :: imagePatch ms k ds
+
+/-- a device write: the range lies inside the image and does not touch the refused window -/
+def imageWrite (d : Dev) (a : Int) (data : Bytes) : Option Dev :=
+  if 0 ≤ a ∧ a.toNat + data.length ≤ d.mem.length ∧
+      ¬ (a.toNat < d.roHi ∧ d.roLo < a.toNat + data.length) then
+    some { d with mem := imagePatch d.mem a.toNat data }
+  else .none
+
 def resOpt {α : Type} : Res Err α → Option α
   | .ok a => some a
   | _ => none
@@ -208,16 +329,16 @@ def ValSem.none (F : Type) : ValSem F := ⟨fun _ _ => .none, fun _ _ => .none, 
 /-- R2. A referenced node read as integer: integer kind as is, float kind truncated
 (`as i64`), enumeration its integer value. -/
 def numInt (prev : ValSem F) (p : NodeId) (s : S F) : Option Int :=
-  if isIntKind cx p then prev.int p s
-  else if isFloatKind cx p then (prev.float p s).map cx.ops.f2i
-  else if isEnumKind cx p then prev.enum p s
+  if intValued cx p then prev.int p s
+  else if floatValued cx p then (prev.float p s).map cx.ops.f2i
+  else if enumValued cx p then prev.enum p s
   else .none
 
 /-- R2'. … read as float. -/
 def numFloat (prev : ValSem F) (p : NodeId) (s : S F) : Option F :=
-  if isIntKind cx p then (prev.int p s).map cx.ops.i2f
-  else if isFloatKind cx p then prev.float p s
-  else if isEnumKind cx p then (prev.enum p s).map cx.ops.i2f
+  if intValued cx p then (prev.int p s).map cx.ops.i2f
+  else if floatValued cx p then prev.float p s
+  else if enumValued cx p then (prev.enum p s).map cx.ops.i2f
   else .none
 
 def sonInt (prev : ValSem F) (v : ImmOrPNode SlotId) (s : S F) : Option Int :=
@@ -242,7 +363,7 @@ def vkInt (prev : ValSem F) (vk : ValueKind) (s : S F) : Option Int :=
   | .value id => slotInt cx s id
   | .pValue p _ => numInt cx prev p s
   | .pIndex sel entries dflt =>
-    if isIntKind cx sel then (prev.int sel s).bind fun i => sonInt cx prev (pIndexSelect entries dflt i) s
+    if intValued cx sel then (prev.int sel s).bind fun i => sonInt cx prev (selectIndexed entries dflt i) s
     else .none
 
 def vkFloat (prev : ValSem F) (vk : ValueKind) (s : S F) : Option F :=
@@ -250,7 +371,7 @@ def vkFloat (prev : ValSem F) (vk : ValueKind) (s : S F) : Option F :=
   | .value id => slotFloat cx s id
   | .pValue p _ => numFloat cx prev p s
   | .pIndex sel entries dflt =>
-    if isIntKind cx sel then (prev.int sel s).bind fun i => sonFloat cx prev (pIndexSelect entries dflt i) s
+    if intValued cx sel then (prev.int sel s).bind fun i => sonFloat cx prev (selectIndexed entries dflt i) s
     else .none
 
 /-- R4. One address element. -/
@@ -262,14 +383,14 @@ def addrElem (prev : ValSem F) (k : AddressKind) (s : S F) : Option Int :=
     (numInt cx prev sel s).bind fun b =>
       match offset with
       | .none => some b
-      | some o => (immInt cx prev o s).bind fun off => resOpt (mulI64 cx.profile b off)
+      | some o => (immInt cx prev o s).bind fun off => i64Result cx.profile (b * off)
 
 /-- R5. The effective address is the sum of the address elements (in `i64`). -/
 def addrSum (prev : ValSem F) (ks : List AddressKind) (acc : Int) (s : S F) : Option Int :=
   match ks with
   | [] => some acc
   | k :: ks => (addrElem cx prev k s).bind fun x =>
-      (resOpt (addI64 cx.profile acc x)).bind fun acc' => addrSum prev ks acc' s
+      (i64Result cx.profile (acc + x)).bind fun acc' => addrSum prev ks acc' s
 
 /-- R6. The bytes of a register: `length` bytes (Length / pLength) at the effective
 address, read through a plain (non-chunk) port from the device image. -/
@@ -278,7 +399,7 @@ def regBytes (prev : ValSem F) (rb : RegBase) (s : S F) : Option Bytes :=
   (addrSum cx prev rb.addrs 0 s).bind fun a =>
     if 0 ≤ l then
       match cx.graph rb.port with
-      | some (.port _ false) => s.dev.read a l.toNat
+      | some (.port _ false) => imageRead s.dev.mem a l.toNat
       | _ => .none
     else .none
 
@@ -293,7 +414,7 @@ def valStep (prev : ValSem F) : ValSem F where
       (regBytes cx prev rb s).bind fun bs =>
       (resOpt (cx.ops.intFromSlice bs endian sign)).bind fun x =>
       (immInt cx prev rb.length s).bind fun l =>
-        resOpt (cx.ops.applyMask cx.profile mask x (asUsize l) endian sign)
+        resOpt (cx.ops.applyMask cx.profile mask x (usizeOf l) endian sign)
     | _ => .none
   float n s :=
     match cx.graph n with
@@ -304,7 +425,7 @@ def valStep (prev : ValSem F) : ValSem F where
   str n s :=
     match cx.graph n with
     | some (.string _ (.imm id)) => slotStr s id                               -- R10 String
-    | some (.string _ (.pnode p)) => if isStrKind cx p then prev.str p s else .none
+    | some (.string _ (.pnode p)) => if strValued cx p then prev.str p s else .none
     | some (.stringReg rb) =>                                                   -- R11 StringReg
       (regBytes cx prev rb s).map fun bs => cx.ops.strDecode (bs.takeWhile (· != 0))
     | _ => .none
@@ -330,7 +451,7 @@ def specBool (d : Nat) (n : NodeId) (s : S F) : Option Bool :=
 def specCurrentEntry (d : Nat) (n : NodeId) (s : S F) : Option NodeId :=
   match cx.graph n with
   | some (.enumeration _ entries value) =>
-    (sonInt cx (valSem cx d) value s).bind fun v => (resOpt (findEntryByValue cx entries v)).join
+    (sonInt cx (valSem cx d) value s).bind fun v => firstEntryWithValue cx entries v
   | _ => .none
 
 /-- R15. Raw register: address, length, content. -/
@@ -373,15 +494,15 @@ def SetSem.none (F : Type) : SetSem F :=
 /-- W2. Writing an integer to a referenced node: integer kind as is, float kind converted,
 enumeration by value. -/
 def numSetInt (prev : SetSem F) (p : NodeId) (v : Int) (s : S F) : Option (S F) :=
-  if isIntKind cx p then prev.int p v s
-  else if isFloatKind cx p then prev.float p (cx.ops.i2f v) s
-  else if isEnumKind cx p then prev.enum p v s
+  if intValued cx p then prev.int p v s
+  else if floatValued cx p then prev.float p (cx.ops.i2f v) s
+  else if enumValued cx p then prev.enum p v s
   else .none
 
 def numSetFloat (prev : SetSem F) (p : NodeId) (v : F) (s : S F) : Option (S F) :=
-  if isIntKind cx p then prev.int p (cx.ops.f2i v) s
-  else if isFloatKind cx p then prev.float p v s
-  else if isEnumKind cx p then prev.enum p (cx.ops.f2i v) s
+  if intValued cx p then prev.int p (cx.ops.f2i v) s
+  else if floatValued cx p then prev.float p v s
+  else if enumValued cx p then prev.enum p (cx.ops.f2i v) s
   else .none
 
 def sonSetInt (prev : SetSem F) (t : ImmOrPNode SlotId) (v : Int) (s : S F) : Option (S F) :=
@@ -411,7 +532,7 @@ def vkSetInt (pv : ValSem F) (prev : SetSem F) (vk : ValueKind) (v : Int) (s : S
   | .value id => some (slotSet s id (.int v))
   | .pValue p cs => (numSetInt cx prev p v s).bind fun s' => copiesSetInt cx prev cs v s'
   | .pIndex sel entries dflt =>
-    if isIntKind cx sel then (pv.int sel s).bind fun i => sonSetInt cx prev (pIndexSelect entries dflt i) v s
+    if intValued cx sel then (pv.int sel s).bind fun i => sonSetInt cx prev (selectIndexed entries dflt i) v s
     else .none
 
 def vkSetFloat (pv : ValSem F) (prev : SetSem F) (vk : ValueKind) (v : F) (s : S F) : Option (S F) :=
@@ -419,7 +540,7 @@ def vkSetFloat (pv : ValSem F) (prev : SetSem F) (vk : ValueKind) (v : F) (s : S
   | .value id => some (slotSet s id (.float v))
   | .pValue p cs => (numSetFloat cx prev p v s).bind fun s' => copiesSetFloat cx prev cs v s'
   | .pIndex sel entries dflt =>
-    if isIntKind cx sel then (pv.int sel s).bind fun i => sonSetFloat cx prev (pIndexSelect entries dflt i) v s
+    if intValued cx sel then (pv.int sel s).bind fun i => sonSetFloat cx prev (selectIndexed entries dflt i) v s
     else .none
 
 /-- W5. Writing `buf` to a register: the buffer has exactly the register's length, the
@@ -429,7 +550,7 @@ def regWriteBytes (pv : ValSem F) (rb : RegBase) (buf : Bytes) (s : S F) : Optio
     if 0 ≤ l ∧ buf.length = l.toNat then
       (addrSum cx pv rb.addrs 0 s).bind fun a =>
         match cx.graph rb.port with
-        | some (.port _ false) => (s.dev.write a buf).map fun d => { s with dev := d }
+        | some (.port _ false) => (imageWrite s.dev a buf).map fun d => { s with dev := d }
         | _ => .none
     else .none
 
@@ -447,7 +568,7 @@ def setStep (pv : ValSem F) (prev : SetSem F) : SetSem F where
       (regBytes cx pv rb s).bind fun bs =>
       (resOpt (cx.ops.intFromSlice bs endian sign)).bind fun old =>
       (immInt cx pv rb.length s).bind fun l =>
-      (resOpt (cx.ops.maskedValue cx.profile mask old v (asUsize l) endian sign)).bind fun new =>
+      (resOpt (cx.ops.maskedValue cx.profile mask old v (usizeOf l) endian sign)).bind fun new =>
         if 0 ≤ l then
           (resOpt (cx.ops.bytesFromInt new l.toNat endian sign)).bind fun buf => regWriteBytes cx pv rb buf s
         else .none
@@ -464,7 +585,7 @@ def setStep (pv : ValSem F) (prev : SetSem F) : SetSem F where
   str n v s :=
     match cx.graph n with
     | some (.string _ (.imm id)) => some (slotSet s id (.str v))                        -- W9 String
-    | some (.string _ (.pnode p)) => if isStrKind cx p then prev.str p v s else .none
+    | some (.string _ (.pnode p)) => if strValued cx p then prev.str p v s else .none
     | some (.stringReg rb) =>                                                            -- W10 StringReg
       (immInt cx pv rb.length s).bind fun l =>
         if v.all (· < 128) ∧ ¬ v.any (· == 0) ∧ 0 ≤ l ∧ v.length ≤ l.toNat then
@@ -474,9 +595,9 @@ def setStep (pv : ValSem F) (prev : SetSem F) : SetSem F where
   enum n v s :=
     match cx.graph n with
     | some (.enumeration _ entries value) =>                                             -- W11 Enumeration
-      match findEntryByValue cx entries v with
-      | .ok (some _) => sonSetInt cx prev value v s      -- only declared values
-      | _ => .none
+      match firstEntryWithValue cx entries v with
+      | some _ => sonSetInt cx prev value v s      -- only declared values
+      | .none => .none
     | _ => .none
 
 /-- the reference write semantics at reference depth `d` -/
@@ -500,6 +621,98 @@ def specRegWrite (d : Nat) (n : NodeId) (data : Bytes) (s : S F) : Option (S F) 
     | some rb => regWriteBytes cx (valSem cx d) rb data s
     | .none => .none
   | .none => .none
+
+/-! ### minimum / maximum / increment, maximal string length, and their setters -/
+
+def immFloat (prev : ValSem F) (v : ImmOrPNode F) (s : S F) : Option F :=
+  match v with
+  | .imm a => some a
+  | .pnode p => numFloat cx prev p s
+
+/-- R16. `min`: `<Min>` / `<pMin>` of an Integer; the type's range for an IntReg; the range
+of the bit field for a MaskedIntReg. -/
+def specIntMin (d : Nat) (n : NodeId) (s : S F) : Option Int :=
+  match cx.graph n with
+  | some (.integer _ _ mn _ _) => sonInt cx (valSem cx d) mn s
+  | some (.intReg _ sign _) => some (match sign with | .signed => -(2 ^ 63) | .unsigned => 0)
+  | some (.maskedIntReg rb mask sign endian) =>
+    (immInt cx (valSem cx d) rb.length s).bind fun l =>
+      resOpt (cx.ops.maskMin cx.profile mask (usizeOf l) endian sign)
+  | _ => .none
+
+def specIntMax (d : Nat) (n : NodeId) (s : S F) : Option Int :=
+  match cx.graph n with
+  | some (.integer _ _ _ mx _) => sonInt cx (valSem cx d) mx s
+  | some (.intReg ..) => some (2 ^ 63 - 1)
+  | some (.maskedIntReg rb mask sign endian) =>
+    (immInt cx (valSem cx d) rb.length s).bind fun l =>
+      resOpt (cx.ops.maskMax cx.profile mask (usizeOf l) endian sign)
+  | _ => .none
+
+/-- R17. `inc`: `<Inc>` / `<pInc>` of an Integer; registers have none. -/
+def specIntInc (d : Nat) (n : NodeId) (s : S F) : Option (Option Int) :=
+  match cx.graph n with
+  | some (.integer _ _ _ _ inc) => (immInt cx (valSem cx d) inc s).map some
+  | some (.intReg ..) => some .none
+  | some (.maskedIntReg ..) => some .none
+  | _ => .none
+
+def specFloatMin (d : Nat) (n : NodeId) (s : S F) : Option F :=
+  match cx.graph n with
+  | some (.float _ _ mn _ _) => sonFloat cx (valSem cx d) mn s
+  | some (.floatReg ..) => some cx.ops.fMin
+  | _ => .none
+
+def specFloatMax (d : Nat) (n : NodeId) (s : S F) : Option F :=
+  match cx.graph n with
+  | some (.float _ _ _ mx _) => sonFloat cx (valSem cx d) mx s
+  | some (.floatReg ..) => some cx.ops.fMax
+  | _ => .none
+
+def specFloatInc (d : Nat) (n : NodeId) (s : S F) : Option (Option F) :=
+  match cx.graph n with
+  | some (.float _ _ _ _ inc) =>
+    match inc with
+    | some i => (immFloat cx (valSem cx d) i s).map some
+    | .none => some .none
+  | some (.floatReg ..) => some .none
+  | _ => .none
+
+/-- R18. `max_length`: unbounded (`i64::MAX`) for a String over a constant, that of the
+pValue string node otherwise; the register length for a StringReg. -/
+def specStrMaxLength : Nat → NodeId → S F → Option Int
+  | 0, _, _ => .none
+  | d + 1, n, s =>
+    match cx.graph n with
+    | some (.string _ (.imm _)) => some (2 ^ 63 - 1)
+    | some (.string _ (.pnode p)) => if strValued cx p then specStrMaxLength d p s else .none
+    | some (.stringReg rb) => immInt cx (valSem cx d) rb.length s
+    | _ => .none
+
+/-- W15. `set_min` / `set_max` store into `<Min>` / `<Max>` or write through `<pMin>` / `<pMax>`. -/
+def specIntSetMin (d : Nat) (n : NodeId) (v : Int) (s : S F) : Option (S F) :=
+  match cx.graph n with
+  | some (.integer _ _ mn _ _) => sonSetInt cx (setSem cx d) mn v s
+  | _ => .none
+def specIntSetMax (d : Nat) (n : NodeId) (v : Int) (s : S F) : Option (S F) :=
+  match cx.graph n with
+  | some (.integer _ _ _ mx _) => sonSetInt cx (setSem cx d) mx v s
+  | _ => .none
+def specFloatSetMin (d : Nat) (n : NodeId) (v : F) (s : S F) : Option (S F) :=
+  match cx.graph n with
+  | some (.float _ _ mn _ _) => sonSetFloat cx (setSem cx d) mn v s
+  | _ => .none
+def specFloatSetMax (d : Nat) (n : NodeId) (v : F) (s : S F) : Option (S F) :=
+  match cx.graph n with
+  | some (.float _ _ _ mx _) => sonSetFloat cx (setSem cx d) mx v s
+  | _ => .none
+
+/-- W16. `set_entry_by_symbolic`: the value the named entry denotes, then W11. -/
+def specEnumSetByName (d : Nat) (n : NodeId) (name : String) (s : S F) : Option (S F) :=
+  match cx.graph n with
+  | some (.enumeration _ entries _) =>
+    (entryValueNamed cx entries name).bind fun v => (setSem cx (d + 1)).enum n v s
+  | _ => .none
 
 /-- graphs inside the scope of this reference semantics: no converter / swiss-knife nodes -/
 def NoFormulaNodes : Prop :=
